@@ -7,6 +7,10 @@ strings (length 0..256 over XML characters), datetimes (years 1..9999, aware and
 microseconds), revision values, wrong-typed values, element text written directly
 (W3CDTF granularities x offsets, malformed text), save/re-open cycles, default-part
 creation; plus lib/Calendar.v against datetime.date.
+Codec: model/CorePropsCodec.v (proofs/CorePropsCodec_proofs.v: dec_core (enc_core st) = Some st for every
+state of declared children with XML-character texts, blank-only texts included) is compared with lxml
+as python-pptx drives it on generated states: the bytes held for docProps/core.xml (first and second save),
+and what Presentation(saved).core_properties reads, against enc_core_m / dec_core_r + the model getters.
 Oracle: the property's own statement evaluated on the implementation's readings
 (independent of the model), and lxml.etree.XMLSchema built from the repository's
 opc-coreProperties.xsd (with local stand-ins for the Dublin Core schemas it imports).
@@ -44,10 +48,12 @@ TB = [
     "datetime + timedelta is modelled by lib/Calendar.v add_seconds (proved inverse of ordinal/civil arithmetic; compared with datetime.date.fromordinal/toordinal by this check)",
     "validity: valid_cp in model/CoreProps.v is a hand reading of opc-coreProperties.xsd (xsd:all of 15 children; cp:lastPrinted xsd:dateTime; dcterms:created/modified with xsi:type dcterms:W3CDTF = gYear|gYearMonth|date|dateTime), compared on every observed state with lxml.etree.XMLSchema (libxml2)",
     "nd_zeros in model/CoreProps.v is compared in full with unicodedata (category Nd) of the running interpreter",
+    "model/CorePropsCodec.v: text-level writer and reader of docProps/core.xml (element text through sax_escape_g / lex_text of model/Escape.v, C05, which holds libxml2's blank-text removal), tied to lxml by the codec phase of this check (byte for byte on CorePropertiesPart.blob = the saved member, first and second save; readings and children of the re-opened package against dec_core_r); UTF-8 between bytes and code points is Python's codec",
 ]
 ASSUME = [
     "dc.xsd / dcterms.xsd / xml.xsd are not in the repository and cannot be fetched: the XMLSchema oracle compiles the repository's opc-coreProperties.xsd against minimal local stand-ins (SimpleLiteral = mixed text without children + xml:lang; dcterms:W3CDTF = simpleContent restriction of SimpleLiteral to the union gYear|gYearMonth|date|dateTime), written from the published 2003/04/02 Dublin Core schemas",
-    "save/re-open is the identity on the model state: serialisation and parsing of text made of XML characters by lxml is outside the model and only observed (readings and children identical after 1-3 cycles)",
+    "save/re-open is the identity on the model state: PROVED for the concrete codec of model/CorePropsCodec.v (proofs/CorePropsCodec_proofs.v dec_enc_core, history_reopen: every state of declared children whose texts are XML characters, blank-only and empty texts included; roots of the default template and of CorePropertiesPart.default); that the codec IS what lxml does is the codec correspondence of every run; a root from another producer that leaves dc / dcterms undeclared (start state k = 2: lxml then declares them on each child) is outside the codec and only observed (readings and children identical after 1-3 cycles)",
+    "codec phase: xsi:type on a child other than dcterms:created / dcterms:modified is written, read and compared, but its effect on schema validity is outside valid_cp (validity not compared for those states)",
     "children of cp:coreProperties are leaves with text (cp:keywords with cp:value children, comments, other attributes are outside the model); absent text and empty text are identified",
     "values whose %-formatting in the error message itself fails (tuples) and str subclasses are not generated",
     "libxml2 does not collapse white space around xsd:dateTime content in this position; such raw texts are excluded from the validity comparison",
@@ -902,6 +908,286 @@ def mask_validity(case, line):
     return ";".join(rec.rsplit("|", 1)[0] for rec in line.split(";"))
 
 
+# ------------------------------------------------------------------ concrete codec (model/CorePropsCodec.v)
+# texts the generated states draw from: blanks only, leading / trailing blanks, line ends in every arrangement, markup
+# characters and things that look like references / CDATA / comments / tags, non-ASCII blanks, the ends of the XML Char
+# ranges, beyond-BMP characters, the 255 limit; CODEC_LONG go in through the element only (the API refuses them)
+CODEC_TEXTS = [
+    "", " ", "  ", "\t", "\n", "\r", "\r\n", " \r", "\r ", " \n ", "\n\n", "\r\r", "\n\r", " \t\n\r ", " a", "a ", "  a  ", "\ta\n",
+    "a\rb", "a\r\nb", "\r\na", "a\r\n", "a\n", "\na", " \r\n ", "\r\n\r\n",
+    "<", ">", "&", "\"", "'", "<>&\"'", "&amp;", "&#13;", "&#x20;", "&lt;", "&nosuch;", "]]>", "]]", "a]]>b", "<![CDATA[x]]>", "<!--c-->",
+    "<?pi?>", "</dc:title>", "<dc:title>", "a<b>c</b>", " < ", "\n<\n", " & ", "\r&\r",
+    "\u00e9", "\u00a0", "\u0085", "\u2028", "\u3000 ", " \u00a0", "\u00a0 ", "\ud7ff\ue000\ufffd", "\U00010000", "\U0001F600", "\U0010FFFF",
+    " \U0001F600 ", "\n\u00e9", " \u4e2d\n",
+    " " * 255, "\n" * 255, "\t" * 255, " " * 254 + "a", "a" + " " * 254, (" \t\n\r" * 64)[:255], ("\r\n" * 128)[:255], "\U0001F600" * 255,
+    "&" * 255, "<" * 255,
+]
+CODEC_LONG = [" " * 256, " " * 299, " " * 300, " " * 301, " " * 600, "\n" * 299 + "\r", " " * 299 + "\u00e9", "\n" * 300 + "a",
+              " " * 300 + "<", "\r" * 300, (" \t\n\r" * 100), "a" * 1000, " " * 299 + "\r\n" + " " * 300]
+CODEC_DATES = ["2003", "2003-12", "2003-12-31", "2003-12-31T10:14Z", "2003-12-31T10:14:55Z", "2003-12-31T10:14:55+01:00",
+               "2003-12-31T10:14:55.45-08:00", "0001-01-01T00:00:00Z", "9999-12-31T23:59:59Z", " 2003", "2003 ", "2003\n", "\n2003-12-31T10:14:55Z\n",
+               "", " ", "\n", "not a date", "2003-02-30", "2003-12-31T10:14:55+14:00", "\u0662\u0660\u0660\u0663"]
+
+
+def codec_text(rng, limit=255):
+    r = rng.random()
+    if r < 0.45:
+        t = rng.choice(CODEC_TEXTS)
+    elif r < 0.6:
+        n = rng.choice([1, 2, 3, 5, 17, rng.randint(0, 40)])
+        t = "".join(rng.choice(" \t\n\r") for _ in range(n))
+    elif r < 0.7:
+        core = rand_str(rng, rng.randint(1, 12), rng.choice(["ascii", "markup", "astral", "bmp", "mixed"]))
+        t = "".join(rng.choice(" \t\n\r") for _ in range(rng.randint(0, 4))) + core + "".join(rng.choice(" \t\n\r") for _ in range(rng.randint(0, 4)))
+    else:
+        t = rand_str(rng, rng.choice([1, 2, 3, 10, 50, 254, 255, rng.randint(0, 255)]), rng.choice(["markup", "ws", "mixed", "anyxml", "astral", "bmp"]))
+    t = "".join(c if xml_chars(c) else "?" for c in t)
+    return t[:limit] if limit else t
+
+
+def gen_codec_case(rng, i):
+    """One generated state, given as the operations that build it on an emptied template root (k = 0) or on a package
+    without the part (k = 1: CorePropertiesPart.default first).  Operations: set (public API), raw (element text, xsi flag),
+    touch (get_or_add only: an element without text node)."""
+    k = 1 if i % 9 == 4 else 0
+    r = rng.random()
+    if i < 15:
+        props = [i]                                # each property alone
+    elif r < 0.25:
+        props = list(range(15))                    # all 15
+    else:
+        props = rng.sample(range(15), rng.randint(0 if i % 50 == 17 else 1, 8))
+    rng.shuffle(props)
+    ops = []
+    for p in props:
+        kind = KIND[p]
+        r = rng.random()
+        if kind == "t":
+            if r < 0.6:
+                ops.append(["set", p, ["str", codec_text(rng)]])
+            elif r < 0.9:
+                ops.append(["raw", p, 0, rng.choice(CODEC_LONG) if rng.random() < 0.25 else codec_text(rng, 0)])
+            else:
+                ops.append(["touch", p])
+        elif kind == "d":
+            if r < 0.5:
+                ops.append(["set", p, list(rand_dt(rng))])
+            elif r < 0.75:
+                ops.append(["raw", p, 1 if p in XSI_P else 0, rng.choice(CODEC_DATES)])
+            elif r < 0.9:
+                ops.append(["raw", p, 0 if p in XSI_P else 1, rng.choice(CODEC_DATES + [codec_text(rng, 40)])])
+            else:
+                ops.append(["touch", p])
+        else:
+            if r < 0.5:
+                ops.append(["set", p, ["int", rng.choice([1, 2, 7, 10 ** 12, rng.randint(1, 10 ** 30)])]])
+            elif r < 0.9:
+                ops.append(["raw", p, 0, rng.choice(REV_TEXTS)])
+            else:
+                ops.append(["touch", p])
+        if rng.random() < 0.12:
+            # a second write to the same child: an empty string over a text, a text over an element without text node ...
+            ops.append(rng.choice([["set", p, ["str", ""]] if kind == "t" else ["raw", p, 0, ""], ["raw", p, rng.randint(0, 1), codec_text(rng, 0)]]))
+    return {"codec": "core", "k": k, "ops": ops}
+
+
+def codec_observe(el):
+    """The children of cp:coreProperties as the codec's state with text-node marks: (tag index or 15, xsi flag, no text node, text)."""
+    from pptx.oxml.ns import qn
+
+    tagidx = {qn(t): i for i, t in enumerate(QN)}
+    xsi_type = qn("xsi:type")
+    return [(tagidx.get(ch.tag, 15), ch.get(xsi_type) == "dcterms:W3CDTF", ch.text is None, ch.text or "") for ch in el]
+
+
+def codec_fields(kids):
+    return [chr(i) + chr(1 if x else 0) + chr(1 if nt else 0) + t for i, x, nt, t in kids]
+
+
+def codec_impl(case, schema):
+    """Build the state on python-pptx, take the bytes it holds for docProps/core.xml, save, re-open, read."""
+    from pptx import Presentation
+    from pptx.opc.constants import RELATIONSHIP_TYPE as RT
+    from pptx.oxml.ns import qn
+
+    xsi_type = qn("xsi:type")
+    prs = Presentation(io.BytesIO(template_bytes()))
+    if case["k"] == 0:
+        el = prs.core_properties._element
+        for ch in list(el):
+            el.remove(ch)
+    else:
+        pkg = prs.part.package
+        for rid in [r.rId for r in pkg._rels.values() if r.reltype == RT.CORE_PROPERTIES]:
+            pkg._rels.pop(rid)
+    cp = prs.core_properties
+    want = {}                 # what the property statement says each assigned property reads after re-open
+    for op in case["ops"]:
+        if op[0] == "set":
+            val = py_val(tuple(op[2]))
+            try:
+                setattr(cp, ATTR[op[1]], val)
+            except Exception:  # noqa
+                want.pop(op[1], None)
+                continue
+            if isinstance(val, dt.datetime):
+                val = (val if val.tzinfo is None else val.astimezone(dt.timezone.utc).replace(tzinfo=None)).replace(microsecond=0)
+            want[op[1]] = val
+        elif op[0] == "raw":
+            ch = getattr(cp._element, "get_or_add_" + ELEM[op[1]])()
+            ch.text = op[3]
+            if op[2]:
+                cp._element.set(qn("xsi:foo"), "bar")
+                ch.set(xsi_type, "dcterms:W3CDTF")
+                del cp._element.attrib[qn("xsi:foo")]
+            elif xsi_type in ch.attrib:
+                del ch.attrib[xsi_type]
+            if KIND[op[1]] == "t":
+                want[op[1]] = op[3]
+            else:
+                want.pop(op[1], None)
+        else:
+            getattr(cp._element, "get_or_add_" + ELEM[op[1]])()
+    blob1 = cp.blob
+    kids1 = codec_observe(cp._element)
+    buf = io.BytesIO()
+    prs.save(buf)
+    with zipfile.ZipFile(io.BytesIO(buf.getvalue())) as z:
+        member = z.read("docProps/core.xml")
+    prs2 = Presentation(io.BytesIO(buf.getvalue()))
+    cp2 = prs2.core_properties
+    vals = []
+    for a in ATTR:
+        try:
+            vals.append(getattr(cp2, a))
+        except Exception as e:  # noqa
+            vals.append(("err", exc_name(e)))
+    kids2 = codec_observe(cp2._element)
+    valid = bool(schema.validate(cp2._element)) if schema is not None else None
+    return {"blob1": blob1, "kids1": kids1, "member": member, "vals": vals, "kids2": kids2, "valid": valid, "blob2": cp2.blob, "want": want}
+
+
+def codec_judge(case, im, lines):
+    """Differences between lxml as python-pptx drives it and model/CorePropsCodec.v on one state (lines: the model's answers to
+    enc of the state held, dec of the bytes written, enc of the state re-opened)."""
+    from corr.harness import dec as wdec
+
+    d = []
+    rk = str(case["k"])
+    text1 = im["blob1"].decode("utf-8")
+    if im["member"] != im["blob1"]:
+        d.append("the saved member docProps/core.xml is not the part's blob")
+    mtext = wdec(lines[0]) if lines[0] not in ("badcase", "") else lines[0]
+    if mtext != text1:
+        j = next((n for n, (x, y) in enumerate(zip(mtext, text1)) if x != y), min(len(mtext), len(text1)))
+        d.append("written text differs at %d: model %r lxml %r" % (j, mtext[max(0, j - 30):j + 30], text1[max(0, j - 30):j + 30]))
+    if lines[1] == "none":
+        d.append("model reader refuses lxml's own output %r" % text1[-120:])
+    else:
+        rec = lines[1].split("|")
+        kids = ",".join("%s %s:%s" % ("o0" if i == 15 else str(i), "x" if x else "-", show(t)) for i, x, nt, t in im["kids2"])
+        want = [rk] + [fmt_reading(v) for v in im["vals"]] + [kids]
+        has_ws_date = any(KIND[i] == "d" and t != t.strip(" \t\n\r") for i, x, nt, t in im["kids2"] if i < 15)
+        # valid_cp knows xsi:type on dcterms:created / dcterms:modified only: elsewhere the attribute is written, read and
+        # compared here, but its effect on schema validity is outside model/CoreProps.v
+        odd_xsi = any(x and i not in XSI_P for i, x, nt, t in im["kids2"])
+        if im["valid"] is not None and not has_ws_date and not odd_xsi:
+            want.append(str(im["valid"]))
+        else:
+            rec = rec[:17]
+        if rec != want:
+            n = next((n for n, (a, b) in enumerate(zip(rec, want)) if a != b), min(len(rec), len(want)))
+            d.append("re-opened field %d: model %r impl %r" % (n, rec[n][:160] if n < len(rec) else "?", want[n][:160] if n < len(want) else "?"))
+    text2 = im["blob2"].decode("utf-8")
+    mtext2 = wdec(lines[2]) if lines[2] not in ("badcase", "") else lines[2]
+    if mtext2 != text2:
+        j = next((n for n, (x, y) in enumerate(zip(mtext2, text2)) if x != y), min(len(mtext2), len(text2)))
+        d.append("second save differs at %d: model %r lxml %r" % (j, mtext2[max(0, j - 30):j + 30], text2[max(0, j - 30):j + 30]))
+    # the theorem's content on the real code: the state is the same after re-open (an empty text has lost its text node)
+    if [(i, x, t) for i, x, nt, t in im["kids1"]] != [(i, x, t) for i, x, nt, t in im["kids2"]]:
+        d.append("children changed across save / re-open: %r -> %r" % (im["kids1"][:4], im["kids2"][:4]))
+    if any(nt != (t == "") for i, x, nt, t in im["kids2"]):
+        d.append("a re-opened child has an empty text node or a text without one: %r" % (im["kids2"][:4],))
+    return d
+
+
+def codec_oracle(ck, case, im):
+    """The property's own words on the re-opened package: what was assigned reads back."""
+    for p, w in im["want"].items():
+        got = im["vals"][p]
+        if KIND[p] == "r":
+            continue
+        if got != w or type(got) is not type(w):
+            blank = isinstance(w, str) and w != "" and w.strip(" \t\n\r") == ""
+            ck.violation("reopen-blank-text" if blank else "reopen",
+                         "after save and re-open %s reads %s, assigned %s" % (ATTR[p], short(got), short(w)),
+                         {"entry_point": "Presentation.core_properties.%s; save; re-open" % ATTR[p], "input": case,
+                          "impl_outcome": [fmt_reading(v) for v in im["vals"]]})
+
+
+def codec_phase(ck, tier, rng, schema):
+    """model/CorePropsCodec.v against lxml as python-pptx drives it.  Returns (diffs, documents)."""
+    n = 700 if tier == "quick" else 12000
+    cases, ims, wires = [], [], []
+    for i in range(n):
+        c = gen_codec_case(rng, i)
+        try:
+            im = codec_impl(c, schema)
+        except Exception as e:  # noqa
+            ck.violation("history-raised:codec:%s" % type(e).__name__,
+                         "building a core-properties state, saving and re-opening raised %s: %s" % (type(e).__name__, str(e)[:200]),
+                         {"entry_point": "Presentation.core_properties / save / re-open", "input": c, "impl_outcome": "%s: %s" % (type(e).__name__, str(e)[:300])})
+            continue
+        cases.append(c)
+        ims.append(im)
+        rk = chr(c["k"])
+        wires += [["enc", rk] + codec_fields(im["kids1"]), ["dec", im["blob1"].decode("utf-8")], ["enc", rk] + codec_fields(im["kids2"])]
+        ck.count(("codec", c["k"], c["ops"]), any(t != "" for _i, _x, _nt, t in im["kids1"]), "codec")
+        codec_oracle(ck, c, im)
+    diffs, first = 0, None
+    if ck.build.ok and cases:
+        out = run_model("C18", wires)
+        for j, (c, im) in enumerate(zip(cases, ims)):
+            d = codec_judge(c, im, out[3 * j:3 * j + 3])
+            if d:
+                diffs += 1
+                if first is None:
+                    first = (c, d[:3])
+                if diffs <= 5:
+                    ck.notes.append("codec diff: %s" % d[:2])
+        if diffs and first is not None:
+            ck.violation("correspondence-codec",
+                         "model/CorePropsCodec.v and lxml (as driven by parts/coreprops.py, opc/package.py XmlPart.blob, oxml parse_xml) disagree on %d of %d documents, e.g. %s" % (
+                             diffs, len(cases), first[1]),
+                         {"entry_point": "CorePropertiesPart.blob / Presentation.save / Presentation(saved).core_properties",
+                          "input": first[0],
+                          "theorem_or_correspondence": "correspondence CorePropsCodec.v ~ lxml serialiser / parser (theorems C18_reopen_* are about the model only)"},
+                         concrete=False)
+    return diffs, len(cases)
+
+
+def replay_codec(case):
+    schema = None
+    try:
+        schema = make_schema()
+    except Exception:  # noqa
+        pass
+    im = codec_impl(case, schema)
+    rk = chr(case["k"])
+    out = run_model("C18", [["enc", rk] + codec_fields(im["kids1"]), ["dec", im["blob1"].decode("utf-8")], ["enc", rk] + codec_fields(im["kids2"])])
+    print("case", {"k": case["k"], "ops": [o[:2] + [repr(o[-1])[:60]] for o in case["ops"]]})
+    print("written ", im["blob1"][-300:])
+    print("re-opened", [fmt_reading(v)[:60] for v in im["vals"]])
+    d = codec_judge(case, im, out)
+    for x in d:
+        print("diff", x)
+    bad = [p for p, w in im["want"].items() if KIND[p] != "r" and (im["vals"][p] != w or type(im["vals"][p]) is not type(w))]
+    for p in bad:
+        print("re-open changed", ATTR[p], "assigned", short(im["want"][p]), "reads", short(im["vals"][p]))
+    return 1 if d or bad else 0
+
+
+
 def run(ck, tier, rng):
     ck.build = coq_build("C18")
     schema = None
@@ -976,19 +1262,22 @@ def run(ck, tier, rng):
                           "input": first[0], "model_outcome": first[1], "impl_outcome": first[2]}, concrete=False)
         elif diffs:
             ck.notes.append("%d correspondence diffs besides the concrete findings" % diffs)
+    codec_diffs, codec_docs = codec_phase(ck, tier, rng, schema)
     ck.broken_build(oracle_found_concrete=len(ck.violations) > 0)
     return ck.finish(
-        rule="histories over the 15 properties: strings of every length 0..256 (%s) over ASCII, markup, white-space-only, astral, BMP and random XML characters; datetimes over years 1..9999 incl. below 1000, leap days, 23:59:59, microseconds, aware values; revision values; wrong types; element text written directly in every W3CDTF granularity x offsets -14:00..+14:00 (%s) and mutated/malformed text; permutations of all 15 assignments; 1-3 save/re-open cycles; default-part creation; calendar ordinals (%s). Non-trivial = an accepted assignment or written text followed by a further operation, a written timestamp with a non-zero offset, a string of length >= 254, or a datetime assignment" % (
+        rule="histories over the 15 properties: strings of every length 0..256 (%s) over ASCII, markup, white-space-only, astral, BMP and random XML characters; datetimes over years 1..9999 incl. below 1000, leap days, 23:59:59, microseconds, aware values; revision values; wrong types; element text written directly in every W3CDTF granularity x offsets -14:00..+14:00 (%s) and mutated/malformed text; permutations of all 15 assignments; 1-3 save/re-open cycles; default-part creation; calendar ordinals (%s); plus %d codec documents (states of 0-15 children built through the API, by element text incl. texts beyond 255 / 300 characters, and by get_or_add alone; texts of blanks only, leading / trailing blanks, CR / LF / TAB in every arrangement, markup characters, reference- / CDATA- / tag-like text, non-ASCII blanks, the ends of the XML Char ranges, beyond-BMP characters, empty strings; dates with and without xsi:type; both roots): bytes written (first and second save) and the re-opened readings compared with model/CorePropsCodec.v. Non-trivial = an accepted assignment or written text followed by a further operation, a written timestamp with a non-zero offset, a string of length >= 254, or a datetime assignment" % (
             "12 sampled lengths per property" if tier == "quick" else "all lengths for all properties",
             "65 sampled" if tier == "quick" else "all 1681 minute offsets",
-            "21 windows of 400 days" if tier == "quick" else "every day of years 1..9999"),
+            "21 windows of 400 days" if tier == "quick" else "every day of years 1..9999", codec_docs),
         trusted_base=TB, assumptions=ASSUME,
-        extra={"correspondence_diffs": diffs, "exhaustive": False, "xmlschema_oracle": schema is not None},
+        extra={"correspondence_diffs": diffs, "codec_documents": codec_docs, "codec_diffs": codec_diffs, "exhaustive": False, "xmlschema_oracle": schema is not None},
     )
 
 
 def replay(rec):
     case = rec["input"]
+    if case.get("codec"):
+        return replay_codec(case)
     schema = None
     try:
         schema = make_schema()
@@ -1009,7 +1298,7 @@ def replay(rec):
 
 CLAIM = {
     "tech": "Coq proof over a Gallina model of the core-properties setters/getters (all strings, all datetimes, all W3CDTF granularities x zone designators, all states and assignment histories) + proved proleptic-Gregorian calendar arithmetic + extracted-model correspondence on real packages incl. save/re-open + independent oracle with XMLSchema validation",
-    "text": "17 theorems closed under the global context over model/CoreProps.v and lib/Calendar.v: strings of <= 255 XML characters round-trip and longer ones raise ValueError leaving the element untouched; naive datetimes of every year 1..9999 round-trip to the second and aware ones read back as the UTC wall clock with instant local - utcoffset; minute / second / fractional-second timestamps with nothing, Z or any signed hh:mm designator read as the equivalent UTC time (date, year-month, year forms too); positive ints round-trip as revision, bool/non-int/<1 raise ValueError; assigning one property never changes the other 14 readings and after any fold of assignments each property reads its last accepted value; every assignment keeps the element valid against opc-coreProperties.xsd (xsd:all of 15 children, xsd:dateTime / W3CDTF lexical forms); a missing part is created with the documented defaults; civil_of_ordinal and ordinal are mutually inverse on all of Z. The model is tied to oxml/coreprops.py, parts/coreprops.py and Package.core_properties by running ~6.9k (quick) / ~120k (thorough) operations in histories on real presentations and on the extracted model, comparing every reading, the children of cp:coreProperties and schema validity after each step; six regression signatures (year < 1000, aware datetimes, revision = True, minute granularity, fraction with offset, fraction with Z) stay armed in the oracle.",
-    "note": "save/re-open is the identity on the model state and is exercised at run time (1-3 cycles); dc.xsd/dcterms.xsd are not in the repository, the XMLSchema oracle uses minimal local stand-ins; re/int()/%-formatting/lxml behaviour is transcribed and tied by correspondence, not proved about CPython; outside the statement and on record: a timestamp whose UTC time leaves years 1..9999 raises OverflowError (on read and on assigning an aware value), text with a non-XML code point raises ValueError after erasing the previous value, ints of more than 4300 digits hit CPython's conversion limit, a final newline and non-ASCII decimal digits are tolerated by the reader.",
+    "text": "30 theorems closed under the global context over model/CoreProps.v, model/CorePropsCodec.v and lib/Calendar.v: save and re-open is the identity on the state for a CONCRETE writer and reader of docProps/core.xml (C18_reopen_codec / _identity / _history: every state of declared children whose texts are XML characters, any number of cycles, blank-only texts included), tied to lxml byte for byte; strings of <= 255 XML characters round-trip and longer ones raise ValueError leaving the element untouched; naive datetimes of every year 1..9999 round-trip to the second and aware ones read back as the UTC wall clock with instant local - utcoffset; minute / second / fractional-second timestamps with nothing, Z or any signed hh:mm designator read as the equivalent UTC time (date, year-month, year forms too); positive ints round-trip as revision, bool/non-int/<1 raise ValueError; assigning one property never changes the other 14 readings and after any fold of assignments each property reads its last accepted value; every assignment keeps the element valid against opc-coreProperties.xsd (xsd:all of 15 children, xsd:dateTime / W3CDTF lexical forms); a missing part is created with the documented defaults; civil_of_ordinal and ordinal are mutually inverse on all of Z. The model is tied to oxml/coreprops.py, parts/coreprops.py and Package.core_properties by running ~6.9k (quick) / ~120k (thorough) operations in histories on real presentations and on the extracted model, comparing every reading, the children of cp:coreProperties and schema validity after each step; six regression signatures (year < 1000, aware datetimes, revision = True, minute granularity, fraction with offset, fraction with Z) stay armed in the oracle.",
+    "note": "a root element of another producer that leaves dc / dcterms undeclared is outside the concrete codec (observed at run time only); dc.xsd/dcterms.xsd are not in the repository, the XMLSchema oracle uses minimal local stand-ins; re/int()/%-formatting/lxml behaviour is transcribed and tied by correspondence, not proved about CPython; outside the statement and on record: a timestamp whose UTC time leaves years 1..9999 raises OverflowError (on read and on assigning an aware value), text with a non-XML code point raises ValueError after erasing the previous value, ints of more than 4300 digits hit CPython's conversion limit, a final newline and non-ASCII decimal digits are tolerated by the reader.",
     "ref": "6/C18",
 }
